@@ -473,6 +473,7 @@ class Evaluator:
         self.track_copies = track_copies
         self.opaque = set(opaque_funcs)     # qualnames not to inline
         self.hooks = hooks or {}            # ext/dotted name -> fn(ev, args, kwargs)
+        self.descriptor_sets = False        # opt-in: attribute stores run the repository descriptor's __set__
         self.trace = []
         self._stack = []
 
@@ -966,7 +967,8 @@ class Evaluator:
         elif isinstance(t, ast.Attribute):
             base = self.expr(t.value, env, fr)
             if isinstance(base, Obj):
-                base.fields[t.attr] = v
+                if not (self.descriptor_sets and base.ci is not None and self._descriptor_store(base, t.attr, v, fr)):
+                    base.fields[t.attr] = v
             fr.effects.append(('setattr', base, t.attr, v))
         elif isinstance(t, ast.Subscript) and isinstance(t.slice, ast.Slice) and \
                 isinstance(t.value, (ast.Name, ast.Attribute)) \
@@ -1035,6 +1037,40 @@ class Evaluator:
             self.assign(t.value, v, env, fr)
         else:
             raise AnalysisError('VG', fr.fi.qualname, f'assignment target {type(t).__name__}')
+
+    def _descriptor_store(self, base, attr, v, fr):
+        """obj.attr = v where the class declares attr as an instance of a repository descriptor class with a __set__:
+        run that __set__ (its raise outcomes reach the storing frame) on a descriptor object built from the class-level
+        declaration; the instance dictionary is mirrored in the object's fields. False when not applicable."""
+        kind = self.m.descriptor_kind(base.ci, attr)
+        dci = self.m.cls(kind) if kind else None
+        setf = self.m.method(dci, '__set__') if dci is not None else None
+        if setf is None or fr.depth > MAX_DEPTH - 2:
+            return False
+        decl = None
+        for c in base.ci.mro:
+            if attr in getattr(c, 'assigns', {}):
+                decl, owner = c.assigns[attr], c
+                break
+        if not isinstance(decl, ast.Call):
+            return False
+        try:
+            a_ = [self.eval_in_module(x, owner.module) for x in decl.args]
+            k_ = {k.arg: self.eval_in_module(k.value, owner.module) for k in decl.keywords if k.arg}
+            descr = self.construct(dci, a_, k_, fr.depth + 1)
+        except AnalysisError:
+            return False
+        if not isinstance(descr, Obj):
+            return False
+        descr.fields['name'] = Const(attr)
+        d = base.fields.get('__dict__')
+        if not isinstance(d, DictV):
+            d = DictV([{k: x for k, x in base.fields.items() if not k.startswith('__')}])
+            base.fields['__dict__'] = d
+        self.call(setf, [descr, base, v], {}, fr.depth + 1)
+        for k in d.keys():
+            base.fields[k] = d.get(k)
+        return True
 
     # ------------------------------------------------------ expressions
     def ref_of(self, r):
